@@ -41,6 +41,19 @@ OPS2 = [
     (r"\bwrite_all\b", ["write"]), (r"\bread_exact\b", ["read"]),
     (r"\.unwrap_or\(None\)", [".unwrap_or(None).or(None)"]),
 ]
+# third wave: negated conditions, dropped early error returns, weaker arithmetic helpers, swapped Option/Result constructors
+OPS3 = [
+    (r"\bif\s+(?!let\b)([^{}]+?)\s\{", "negate"),
+    (r"\bchecked_sub\(1\)", ["checked_sub(0)"]), (r"\bsaturating_sub\(", ["wrapping_sub("]), (r"\bchecked_sub\(", ["wrapping_sub("]),
+    (r"\.then_some\(", [".then(|| "]),
+    (r"\bSome\(([a-z_][\w.]*)\)(?=\s*$|,|\))", ["None"]),
+    (r"\.is_some\(\)", [".is_none()"]), (r"\.is_none\(\)", [".is_some()"]), (r"\.is_ok\(\)", [".is_err()"]),
+    (r"\.all\(", [".any("]), (r"\.any\(", [".all("]),
+    (r"\.find\(", [".rfind("]), (r"\.position\(", [".rposition("]),
+    (r"\.windows\(2\)", [".chunks(2)"]), (r"\.sort\(\)", [".reverse()"]),
+    (r"\bu64\b", ["u32"]),
+]
+RET_ERR = re.compile(r"^(\s*)return Err\(.*\);\s*$")
 DROP_Q = re.compile(r"^(\s*)([^=\n]*\S)\?;\s*$")
 STMT_DELETE = re.compile(r"^\s*(self\.[\w.]+\([^;]*\)|[\w.]+\.(sort|sort_unstable|clear|set_zero|reset|normalize|push|truncate|flush)\([^;]*\));\s*$")
 
@@ -77,6 +90,7 @@ def in_string(line, col):
 def gen():
     muts = []
     muts2 = []
+    muts3 = []
     files = []
     for base in ("core/src", "cli/src"):
         for dp, dn, fn in os.walk(os.path.join(REPO, base)):
@@ -102,6 +116,23 @@ def gen():
                             muts.append({"file": rel, "line": ln, "col": m.start(), "old": text, "new": new, "op": "%s -> %s" % (m.group(0).strip(), r.strip())})
             if STMT_DELETE.match(code):
                 muts.append({"file": rel, "line": ln, "col": 0, "old": text, "new": re.sub(r"\S.*$", "();", text, count=1), "op": "delete statement"})
+            if os.environ.get("AUTOMUT_WAVE") == "3":
+                for pat, reps in OPS3:
+                    for m in re.finditer(pat, code):
+                        if in_string(code, m.start()):
+                            continue
+                        if reps == "negate":
+                            rr = ["if !(%s) {" % m.group(1)]
+                        else:
+                            rr = reps
+                        for r in rr:
+                            new = code[:m.start()] + r + code[m.end():] + text[len(code):]
+                            if r.startswith(".then(|| "):
+                                pass
+                            if new != text:
+                                muts3.append({"file": rel, "line": ln, "col": m.start(), "old": text, "new": new, "op": "%s -> %s" % (m.group(0).strip()[:40], r.strip()[:40])})
+                if RET_ERR.match(code) and code.count("(") == code.count(")"):
+                    muts3.append({"file": rel, "line": ln, "col": 0, "old": text, "new": re.sub(r"\S.*$", "();", text, count=1), "op": "drop `return Err(..)`"})
             if os.environ.get("AUTOMUT_WAVE") == "2":
                 for pat, reps in OPS2:
                     for m in re.finditer(pat, code):
@@ -123,6 +154,14 @@ def gen():
                 if mq and "let " not in code and "return" not in code:
                     muts2.append({"file": rel, "line": ln, "col": 0, "old": text, "new": "%slet _ = %s;" % (mq.group(1), mq.group(2)), "op": "drop `?`"})
     os.makedirs(ROOT, exist_ok=True)
+    if os.environ.get("AUTOMUT_WAVE") == "3":
+        prev = json.load(open(os.path.join(ROOT, "mutants.json"))) if os.path.exists(os.path.join(ROOT, "mutants.json")) else []
+        base = max([m["id"] for m in prev] + [-1]) + 1
+        for i, m in enumerate(muts3):
+            m["id"] = base + i
+        json.dump(prev + muts3, open(os.path.join(ROOT, "mutants.json"), "w"))
+        print("wave 3: %d new mutants (ids %d..%d)" % (len(muts3), base, base + len(muts3) - 1))
+        return
     muts = muts + muts2
     for i, m in enumerate(muts):
         m["id"] = i
